@@ -75,6 +75,13 @@ def run(ck):
                        "a mid-write crash is produced by the hook writing the first half of the bytes before the kill",
                        "user names over {A,a,b}, passwords {p1,p2}, pull right {'', '/a/*'}; rights compared modulo 'administrator with empty right gets *'"]
 
+    # an edit that arrives while a flush is writing the file (the flush is held at the hook json.write)
+    ofr = os.path.join(ck.tmp, "flushrace.json")
+    ck.run_driver("./tables", "^TestFlushRace$", {"VERIF_OUT": ofr}, timeout=600)
+    for o in ck.read_result(ofr)["outcomes"]:
+        ck.cov["flush_race_rounds_" + o["table"]] = o["rounds"]
+        if o["lost"]:
+            ck.violation("C18:edit-during-flush-is-lost:" + o["table"], "%s: in %d of %d rounds an edit made while a flush was writing was missing after the next flush and a restart: %s" % (o["table"], o["lost"], o["rounds"], o["sample"]), o)
     # the management API (administrative delete / stop, listings, table edits, who may call what)
     from checks import api_common
     api_common.api_leg(ck, "C18")
